@@ -157,15 +157,46 @@ Section Model.
     destruct (assoc (lt_macros lt) nm) as [[[| |[]] d]|]; try discriminate H. reflexivity.
   Qed.
 
-  (** an accent macro with its argument *)
+  (** [_groupnodecontents_to_text(x)] for one argument node: the contents of a group (no
+      delimiters, whatever keep_braced_groups says), a node list, or the node itself *)
+  Definition contents_text (sl : sls) (st : dstate) (x : node) : str * dstate :=
+    match x with
+    | NList _ _ items => items_text sl st None items
+    | NGroup _ _ _ _ _ b =>
+        match b with
+        | None => ([], st)
+        | Some (NList _ _ items) => items_text sl st None items
+        | Some _ => ([], set_err st 1)
+        end
+    | _ => nt sl st x
+    end.
+
+  (** an accent macro with its argument: the accent goes over the argument's CONTENTS *)
   Lemma node_text_macro_accent sl st p e m nm post x comb :
     accent_macro lt nm = Some comb ->
     nt sl st (NMacro p e m nm post (Some ([[123%N]], [Some x]))) =
-    let '(t, st1) := nt sl st x in (accent_text lt comb (Some t), st1).
+    let '(t, st1) := contents_text sl st x in (accent_text lt comb (Some t), st1).
   Proof.
     unfold accent_macro. intros H. cbn [node_text].
     destruct (assoc (lt_macros lt) nm) as [[[| |[]] d]|]; try discriminate H. injection H as <-.
-    cbn [t_repl t_discard]. destruct (nt sl st x) as [t st1]. reflexivity.
+    cbn [t_repl t_discard].
+    assert (FOLD : forall items,
+      (fix it (sl0 : sls) (st0 : dstate) (prev : option node) (l : list (option node)) {struct l}
+         : str * dstate :=
+         match l with
+         | [] => ([], st0)
+         | x :: r =>
+             let pre := match is_bare_macro prev with
+                        | Some post => if is_chars x && negb (s_bmc sl0) then post else []
+                        | None => [] end in
+             let '(t1, st1) := match x with Some nn => nt sl0 st0 nn | None => ([], st0) end in
+             let '(t2, st2) := it sl0 st1 x r in
+             (pre ++ t1 ++ t2, st2)
+         end) sl st None items = items_text sl st None items) by reflexivity.
+    destruct x as [? ? ? ?|? ? ? ? ?|? ? ? ? ? [[]|]|? ? ? ? ? ?|? ? ? ? ? ?|? ? ? ? ?|? ? ? ? ? ? ?|? ? ?];
+      unfold contents_text; cbv beta iota zeta; try rewrite FOLD;
+      try match goal with |- _ = (let '(t, st1) := ?X in _) => destruct X as [t st1] eqn:EX end;
+      reflexivity.
   Qed.
 
   (** specials that are not in the text-spec table: their characters *)
